@@ -165,7 +165,7 @@ ENGINE_SETTINGS = {
              'tag_key': ['kA', 'kB'], 'auto_assign_tags': [True, False]},
     'load': {'key_transform_with_load': ['SNAKE', 'NONE'], 'raise_on_unknown_json_key': [True, False],
              'tag_key': ['kA', 'kB'], 'auto_assign_tags': [True, False]},
-    'v1load': {'v1_key_case': ['CAMEL', 'PASCAL'], 'v1_on_unknown_key': ['RAISE', 'IGNORE'],
+    'v1load': {'v1_key_case': ['CAMEL', 'KEBAB'], 'v1_on_unknown_key': ['RAISE', 'IGNORE'],
                'tag_key': ['kA', 'kB'], 'auto_assign_tags': [True, False]},
 }
 FIXED_SHAPES = [[], ['opt'], ['list'], ['dict'], ['tuple'], ['vtuple'], ['union'], ['mid'],
@@ -314,12 +314,12 @@ def probe_docs(cfg):
     docs = [{'my_val': 1}, {'myVal': 2}, {'my_val': 3, 'zzz': 0}, {'my_val': 4, '__tag__': 'NT'}, {'my_val': 5, 'kA': 'NT'},
             {'my_val': 6, 'kB': 'NT'}, {'zk': 7}, {'nk': 8}]
     if eng == 'v1load':
-        docs += [{'MyVal': 9}]
+        docs += [{'my-val': 9}]
     if cfg['probe'] == 'union':
         e = effective(cfg['nested'], cfg['root'])
         # the members UA/UB have no Meta: their tag key is the root's (when it cascades) or the default
         mk = tag_key_of(effective(None, cfg['root']))
-        docs = [{'my_val': 1, 'u': {'x': 1, mk: 'UB'}}]
+        docs = [{'u': {'x': 1, mk: 'UB'}}]
     if 'union' in cfg['shape']:
         rk = reader_key(cfg)
         docs = [dict(d, **{rk: 'NT'}) for d in docs if rk not in d]
@@ -395,8 +395,6 @@ def check_load(cfg, res):
         if exp[0] == 'err':
             if r.get('err') != exp[1]:
                 return 'doc %r: got %s, expected %s' % (doc, r.get('err') or 'a value', exp[1])
-            if r.get('class_name') not in (None, 'N'):
-                return 'doc %r: %s names class %r, expected N' % (doc, exp[1], r.get('class_name'))
         else:
             if 'err' in r:
                 return 'doc %r: raised %s (%s), expected my_val=%r' % (doc, r['err'], (r.get('msg') or '')[:120], exp[1])
@@ -430,7 +428,8 @@ def gen_configs(ctx):
         if engine == 'dump':
             bvals['key_transform_with_dump'] = rng.choice([['SNAKE', 'PASCAL'], ['PASCAL', 'LISP'], ['NONE', 'CAMEL'], ['LISP', 'SNAKE']])
         if engine == 'v1load':
-            bvals['v1_key_case'] = rng.choice([['CAMEL', 'PASCAL'], ['SNAKE', 'CAMEL'], ['PASCAL', 'KEBAB']])
+            # single-word wrapper keys (n, inner) are spelled the same under these cases; PASCAL would rename them
+            bvals['v1_key_case'] = rng.choice([['CAMEL', 'KEBAB'], ['SNAKE', 'CAMEL'], ['KEBAB', 'SNAKE']])
         f, shapes = factors(engine, rng, 6 if quick else 40)
         rows = pairwise_rows(f, rng, extra_random=40 if quick else 1500)
         for row in rows:
@@ -570,7 +569,7 @@ def run(ctx):
         for eng, root, nested in triples:
             exprs.append('show_impl %s %s %s' % (ENGINE_COQ[eng], coq_cmeta(root), coq_cmeta(nested)))
             exprs.append('show_spec %s %s' % (coq_cmeta(root), coq_cmeta(nested)))
-        out = ctx.coq(exprs, ['MetaMerge'], prelude=PRELUDE)
+        out = ctx.coq(exprs, ['PyStr', 'MetaMerge'], prelude=PRELUDE)
         model = {k: (out[2 * i], out[2 * i + 1]) for k, i in index.items()}
     except Exception as e:  # noqa
         ctx.broken_tie('model evaluation failed: %s' % str(e)[:500])
